@@ -1228,11 +1228,11 @@ Qed.
 Lemma vac_with_view k (f : cstate -> option vobj * cstate) d (w : mworld) :
   (forall s, exists v' s', f s = (Some v', s') /\ vdat v' = d) ->
   WF (self w) -> find_idx kcls (kcls k) (Spec.elems (self w)) = None ->
-  wp (v <- call_mk f ;; vac_insert Em debug k v)
+  wp (v <- on_unwind (unwind_key Em k) (call_mk f) ;; vac_insert Em debug k v)
      (fun i w' => vpost mphi (addF k d w) w w' /\ i < len (self w'))
      (vpost mphi (addF k d w) w) w.
 Proof.
-  intros Hf Hw Hn. apply wp_bind.
+  intros Hf Hw Hn. apply wp_bind. apply wp_on_unwind_nopanic.
   eapply wp_mono; [apply call_mk_view; exact Hf | |]; cbn beta; [|tauto].
   intros v' w1 [Hs1 Hd]. subst d.
   eapply wp_mono; [apply vac_insert_view; rewrite Hs1; assumption | |]; cbn beta; rewrite Hs1.
